@@ -112,6 +112,14 @@ static void box_case(int w, int h, int K, int anchor, boundary opt, vt::Rng& rng
         gil::box_filter(gil::const_view(src), gil::view(dst), K, anchor, false, opt);
         J("Box").str("fn", "box_filter").str("types", "gray8->gray32f").str("opt", optname(opt)).num("w", w).num("h", h).num("K", K).num("anchor", anchor).num("c", c).num("kden", 1)
             .raw("src", img_json(gil::const_view(src))).raw("before", img_json(gil::const_view(before))).raw("dst", img_json(gil::const_view(dst))).emit(); }
+    if ((w + h + K) % 2 == 0) {   // accumulator pixel<float, bgr_layout_t> between a bgr8 source and an rgb32f destination: channels pair by colour (physical index 2 - ch in the source)
+        gil::bgr8_image_t src(w, h); for (auto& p : gil::view(src)) gil::static_generate(p, [&]() { return (uint8_t)rng.below(40); });
+        gil::rgb32f_image_t dst(w, h); for (auto& p : gil::view(dst)) gil::static_generate(p, [&]() { return (float)rng.range(-50, 50); });
+        gil::rgb32f_image_t before(dst);
+        gil::box_filter(gil::const_view(src), gil::view(dst), K, anchor, false, opt);
+        for (int ch = 0; ch < 3; ++ch)
+            J("Box").str("fn", "box_filter").str("types", "bgr8->rgb32f").str("opt", optname(opt)).num("w", w).num("h", h).num("K", K).num("anchor", anchor).num("c", c).num("kden", 1).num("ch", ch)
+                .raw("src", img_json(gil::const_view(src), 2 - ch)).raw("before", img_json(gil::const_view(before), ch)).raw("dst", img_json(gil::const_view(dst), ch)).emit(); }
     if (K == 1 || K == 2 || K == 4) {
         gil::gray8_image_t src(w, h); for (auto& p : gil::view(src)) p = gil::gray8_pixel_t((uint8_t)(K * K * rng.below(250 / (K * K))));
         gil::gray8_image_t dst(w, h); for (auto& p : gil::view(dst)) p = gil::gray8_pixel_t((uint8_t)(K * K * rng.below(250 / (K * K))));
